@@ -109,6 +109,19 @@ structure Facts where
   accesses : List Access
   deriving Repr
 
+/-- a call of a mutating method (or an element write through an accessor) in the phasing functions -/
+structure MutCall where
+  fn : String
+  recv : String
+  method : String
+  /-- the receiver variable was last assigned from `….Clone()` -/
+  fresh : Bool
+  line : Nat
+  deriving DecidableEq, Repr
+
+/-- **inputs are not modified**: every mutating call in the phasing functions acts on a fresh clone -/
+def inputsUnmodified (calls : List MutCall) : Bool := calls.all (·.fresh)
+
 /-! ## happens-before between roles -/
 
 def Facts.workers (F : Facts) : List Goroutine := F.goroutines.filter (·.role == .worker)
